@@ -1,6 +1,7 @@
 (* M_Orch.v -- executable model of the orchestrator's management computation
    (pydcop/infrastructure/orchestrator.py: AgentsMgt) as far as C22 needs it:
-     _cb_agent_registration, _cb_computation_registration, _orchestrator_deploy_computations,
+     _cb_agent_registration (incl. the stop order to an agent that registers after the agents were
+     asked to stop, /repo fix), _cb_computation_registration, _orchestrator_deploy_computations,
      _orchestrator_run_computations, _orchestrator_stop_agents, _on_value_change_msg
      (collect modes 'value_change' / 'period' / None: every value goes to _current_cycle = 0),
      _on_computation_end_msg, _on_agent_stopped_msg, _on_metrics_msg, the error path of
@@ -110,11 +111,12 @@ Record mgt := mkMgt {
   m_nb : Z;                          (* _nb_computations *)
   m_all_registered : bool;
   m_ready : bool;                    (* ready_to_run, as set by the registration callback *)
-  m_all_stopped : bool               (* _all_agt_stopped *)
+  m_all_stopped : bool;              (* _all_agt_stopped *)
+  m_stop_requested : bool            (* _stop_requested: the stop order has been sent (fix: a late agent is told too) *)
 }.
 
 Definition init (c : cfg) : mgt :=
-  mkMgt (dict_of_list String.eqb (map (fun n => (n, false)) (g_nodes c))) [] 0 false false false.
+  mkMgt (dict_of_list String.eqb (map (fun n => (n, false)) (g_nodes c))) [] 0 false false false false.
 
 Inductive ev :=
 | EAgentAdded (a : string) | EAgentRemoved (a : string)     (* discovery callbacks *)
@@ -132,8 +134,9 @@ Inductive out :=
 (* _orchestrator_stop_agents *)
 Definition stop_agents (m : mgt) (en : env) : mgt * list out :=
   match e_agents en with
-  | [] => (mkMgt (m_status m) (m_values m) (m_nb m) (m_all_registered m) (m_ready m) true, [])
-  | ags => (m, map OStop ags)
+  | [] => (mkMgt (m_status m) (m_values m) (m_nb m) (m_all_registered m) (m_ready m) true true, [])
+  | ags => (mkMgt (m_status m) (m_values m) (m_nb m) (m_all_registered m) (m_ready m)
+                  (m_all_stopped m) true, map OStop ags)
   end.
 
 Definition all_finished (st : list (string * bool)) : bool := forallb snd st.
@@ -143,31 +146,33 @@ Definition step (c : cfg) (m : mgt) (en : env) (e : ev) : mgt * list out :=
   | EAgentAdded a =>
       let allreg := forallb (fun x => smem x (e_agents en)) (dist_agents c) in
       (mkMgt (m_status m) (m_values m) (m_nb m) (m_all_registered m || allreg) (m_ready m)
-             (m_all_stopped m), [OMetricsMode a])
+             (m_all_stopped m) (m_stop_requested m),
+       OMetricsMode a :: if m_stop_requested m then [OStop a] else [])
   | EAgentRemoved a =>
       (mkMgt (m_status m) (m_values m) (m_nb m) (m_all_registered m) (m_ready m)
-             (m_all_stopped m || match e_agents en with [] => true | _ => false end), [])
+             (m_all_stopped m || match e_agents en with [] => true | _ => false end)
+             (m_stop_requested m), [])
   | ECompAdded x =>
       let rdy := smem x (dist_computations c)
                  && forallb (fun y => smem y (e_comps en)) (dist_computations c) in
       (mkMgt (m_status m) (m_values m) (m_nb m) (m_all_registered m) (m_ready m || rdy)
-             (m_all_stopped m), [])
+             (m_all_stopped m) (m_stop_requested m), [])
   | ECompRemoved x => (m, [])
   | EDeploy =>
       let outs := flat_map (fun a => map (ODeploy a) (computations_hosted c a)) (e_agents en) in
       (mkMgt (m_status m) (m_values m) (m_nb m + Z.of_nat (List.length outs))
-             (m_all_registered m) (m_ready m) (m_all_stopped m), outs)
+             (m_all_registered m) (m_ready m) (m_all_stopped m) (m_stop_requested m), outs)
   | ERun =>
       (m, if g_repair_only c then []
           else map (fun a => ORun a (computations_hosted c a)) (e_agents en))
   | EStopReq => stop_agents m en
   | EValue _ x v =>
       (mkMgt (m_status m) (dict_set String.eqb x v (m_values m)) (m_nb m) (m_all_registered m)
-             (m_ready m) (m_all_stopped m), [])
+             (m_ready m) (m_all_stopped m) (m_stop_requested m), [])
   | EEnd _ x =>
       let st := dict_set String.eqb x true (m_status m) in
       let m' := mkMgt st (m_values m) (m_nb m) (m_all_registered m) (m_ready m)
-                      (m_all_stopped m) in
+                      (m_all_stopped m) (m_stop_requested m) in
       if all_finished st then stop_agents m' en else (m', [])
   | EStopped _ | EMetrics _ => (m, [])
   | EOther => (m, [OCritical])     (* AgentException -> stop_agents(10) from the handler, self.stop() *)
